@@ -83,8 +83,20 @@ fn cmp_seq_unit<U: OutElem>(rep: &mut Report, f: &str, key: &str, cell: &str, go
     }
 }
 
+/// the two infinities as in-band symbols (MapOps.tla PINFM / NINFM)
+const PINFM: i64 = 900_000;
+const NINFM: i64 = -900_000;
 fn opt_exps(v: &Value, k: &str) -> Vec<Exp> {
-    get_ints(v, k).into_iter().map(Exp::from_opt_int).collect()
+    get_ints(v, k).into_iter().map(|x| match x { PINFM => Exp::Inf(1), NINFM => Exp::Inf(-1), x => Exp::from_opt_int(x) }).collect()
+}
+/// a lag-operation element measured in the unit u
+fn enc_lag(x: i64, u: f64) -> f64 {
+    match x {
+        NULL => f64::NAN,
+        PINFM => f64::INFINITY,
+        NINFM => f64::NEG_INFINITY,
+        v => v as f64 * u,
+    }
 }
 
 fn enc_f(x: i64) -> f64 {
@@ -154,10 +166,12 @@ fn lag(rep: &mut Report, v: &Value) {
     let n = lag_of(n_raw);
     let fill = get_i64(v, "fill");
     let key = |f: &str| format!("{f}|n={n},fill={}|s={s:?}", if fill == NULL { "null".to_string() } else { fill.to_string() });
-    let nullfree = !has_null(&s);
+    let has_inf = any_of(s.iter(), |x| *x == PINFM || *x == NINFM);
+    // integer element types hold neither nulls nor infinities
+    let nullfree = !has_null(&s) && !has_inf;
     let (e_shift, e_diff, e_pct) = (opt_exps(v, "shift"), opt_exps(v, "diff"), Exp::parse_seq(&v["pct"]));
-    let vf: Vec<f64> = enc_vec(&s);
-    let vo: Vec<Option<f64>> = enc_vec(&s);
+    let vf: Vec<f64> = s.iter().map(|x| enc_lag(*x, 1.0)).collect();
+    let vo: Vec<Option<f64>> = s.iter().map(|x| if *x == NULL { None } else { Some(enc_lag(*x, 1.0)) }).collect();
     let ff = f64::enc(fill);
     let fo = if fill == NULL { None } else { Some(ff) };
 
@@ -190,19 +204,20 @@ fn lag(rep: &mut Report, v: &Value) {
     // ---- the same series (and fill value) in other units of measurement ----
     if let Some(deg) = v.get("deg").and_then(|d| d.as_object()) {
         let d = |k: &str| deg[k].as_i64().unwrap() as i32;
-        let maxabs = max_abs(&s).max(if fill == NULL { 0 } else { fill.abs() });
+        let finite: Vec<i64> = s.iter().cloned().filter(|x| *x != PINFM && *x != NINFM).collect();
+        let maxabs = max_abs(&finite).max(if fill == NULL { 0 } else { fill.abs() });
         // 2^-1060 is a subnormal power of two (products and differences stay exact), 1e300 leaves
         // no headroom for squares, 123467.8 is not dyadic
         for u in [2.0_f64.powi(-1060), 1e300, 123467.8] {
             let un = |k: &str| { let f = u.powi(d(k)); Unit { factor: f, floor: f * (maxabs.max(1) as f64).powi(d(k)) } };
-            let vu: Vec<f64> = enc_vec_unit(&s, u);
+            let vu: Vec<f64> = s.iter().map(|x| enc_lag(*x, u)).collect();
             let fu = if fill == NULL { None } else { Some(fill as f64 * u) };
             let cell = format!("Vec<f64>@unit={u:e}");
             cmp_seq_unit(rep, "vshift", &key("vshift"), &cell, catch(|| drain(vu.titer().vshift(n, fu))), &e_shift, un("shift"), v);
             cmp_seq_unit(rep, "vdiff", &key("vdiff"), &cell, catch(|| drain(vu.vdiff(n, fu))), &e_diff, un("diff"), v);
             if fill == NULL {
                 cmp_seq_unit(rep, "vpct_change", &key("vpct_change"), &cell, catch(|| drain(vu.vpct_change(n))), &e_pct, un("pct"), v);
-                let vou: Vec<Option<f64>> = enc_vec_unit(&s, u);
+                let vou: Vec<Option<f64>> = s.iter().map(|x| if *x == NULL { None } else { Some(enc_lag(*x, u)) }).collect();
                 cmp_seq_unit(rep, "vpct_change", &key("vpct_change"), &format!("Vec<Option<f64>>@unit={u:e}"), catch(|| drain(vou.vpct_change(n))), &e_pct, un("pct"), v);
             }
         }
